@@ -231,6 +231,8 @@ class Engine:
                         out += self.run(pc + 1, st2, c3, entry=False)
                     elif kind == 'goto':
                         out += self.jump_value(tgt, st2, c3)
+                    elif kind == 'jump':
+                        out += self.jump_label(tgt, st2, c3)
                     else:
                         out.append(Leaf(c3, kind, tgt, st2))
                 return out
